@@ -171,9 +171,10 @@ def stepS (s : SentFrames.State) (op : List String) : SentFrames.State × String
   match parseOp op with
   | some o =>
     let (s', out) := SentFrames.step s o
-    match out with
-    | .panic => (s', "PANIC")
-    | _ => (s', s!"{outStr out} {dumpS s'}")
+    match out, o with
+    | .panic, _ => (s', "PANIC")
+    | _, .tick _ => (s', "ok")
+    | _, _ => (s', s!"{outStr out} {dumpS s'}")
   | none => (s, "BAD op")
 
 def modelS : Model SentFrames.State := { init := SentFrames.init, step := exact stepS }
